@@ -56,7 +56,7 @@ func genRsm(r *Rng, tier string) *Enc {
 	if r.Chance(6) {
 		freq = Pick(r, []string{"Q", "", "W", "d"})
 	}
-	agg := r.Intn(4)
+	agg := r.Intn(5)
 	e.Tok("F")
 	e.Frame(df)
 	e.Str(col)
@@ -72,6 +72,17 @@ func genRsm(r *Rng, tier string) *Enc {
 	for k := 0; k < reps; k++ {
 		var res *dataframe.DataFrame
 		st, _ := guard(func() error { var err error; res, err = df.Resample(col, freq, aggFn(agg)); return err })
+		if st == "ok" && agg == 4 {
+			// identity aggregation: the cells are the slices handed to the callback; render them now, after the
+			// call has finished (a buffer reused between buckets shows as later buckets' data in earlier cells)
+			for _, c := range res.Columns {
+				for i, v := range c.Data {
+					if xs, ok := v.([]any); ok {
+						c.Data[i] = aggFn(3)(xs)
+					}
+				}
+			}
+		}
 		dump := st
 		if st == "ok" {
 			dump += " " + e.FrameS(res)
